@@ -244,6 +244,7 @@ func c12(c *core.Ctx, r *core.Report) {
 		}
 	}
 	r.Count("sorter_abstract_runs", totalRuns)
+	smallModelCheck(c, r, "C12.R1", "sorter", sorter, int64(maxLen))
 	r.Exhaustive = true
 
 	// ---- R4: sort2.Slice delegates faithfully
